@@ -55,11 +55,16 @@ func runCLog(r *verifsim.Run) {
 	s := &cScene{r: r, c: &cn.Cfg, base: 3100, up: 60000, ffc: 1000}
 	n := r.Range(80, 700)
 	sinceT := 1000
+	nClear := 0
 	for i := 0; i < n; i++ {
 		move := !r.Chance(1, 12) // continuous motion with rare still frames
 		if sinceT > 24 && r.Chance(1, 60) {
 			cn.Ev = append(cn.Ev, cEvent{Kind: 'T'})
 			sinceT = 0
+		}
+		if r.Chance(1, 50) {
+			cn.Ev = append(cn.Ev, cEvent{Kind: 'C'}) // camera reset: the limiter's memory must survive it
+			nClear++
 		}
 		cn.Ev = append(cn.Ev, s.next('F', move))
 		sinceT++
@@ -157,6 +162,9 @@ func runCLog(r *verifsim.Run) {
 	}
 	if refused > 120 {
 		r.Probe("condition-recurred-for-minutes")
+	}
+	if nClear > 0 && refused > 0 {
+		r.Probe("camera-reset-while-condition-recurs")
 	}
 	if strings.Contains(abbr(want), "ws") || strings.Contains(abbr(want), "sw") {
 		r.Probe("distinct-messages-interleaved")
